@@ -822,7 +822,7 @@ void VM<FO>::do_log_typed(int tid, int opi, Op const& op)
   record(EV_LOG_RETURN, id, 1, static_cast<int64_t>(cap_after));
   // C11: allocations on the calling thread around the call (first call of a thread and capacity changes are excused)
   record(EV_ALLOC, id, static_cast<int64_t>(mallocs), static_cast<int64_t>(mmaps),
-         (first_call ? 1 : 0) | ((cap_before != cap_after) ? 2 : 0) | (c11ok ? 4 : 0));
+         (first_call ? 1 : 0) | ((cap_before != cap_after) ? 2 : 0) | (c11ok ? 4 : 0) | (static_cast<int64_t>(cap_before) << 8));
 }
 
 // Real LOG_* macros (C16): the level check and the argument evaluation are the library's own.
